@@ -82,7 +82,34 @@ class ElabPass:
         # while modifiying its elements inline.
         for t in self.tops:
             self.elaborate_module_base(t)  # Note `_base` here!
+
+        # A Module which this pass completed during an earlier call is not traversed again above.
+        # Its Instances may have been pointed at other Modules since, not least to replace one in which elaboration failed.
+        # Those are part of the design all the same: visit whatever lies below `tops` and has not been completed yet.
+        for m in self.modules_below(self.tops):
+            self.elaborate_module_base(m)
         return self.tops
+
+    @staticmethod
+    def modules_below(tops: List[Elaboratable]) -> List[Module]:
+        """The Modules of the hierarchies of `tops`, each once, in depth-first order."""
+        order: List[Module] = list()
+        seen: Set[int] = set()
+
+        def walk(m: Module) -> None:
+            if id(m) in seen:
+                return
+            seen.add(id(m))
+            order.append(m)
+            for ctr in (m.instances, m.instarrays, m.instbundles):
+                for inst in ctr.values():
+                    if isinstance(inst.of, Module):
+                        walk(inst.of)
+
+        for t in tops:
+            if isinstance(t, Module):
+                walk(t)
+        return order
 
     def elaborate_module_base(self, module: Module) -> Module:
         """# Base-Case `Module` Elaboration
